@@ -200,6 +200,7 @@ func enumTamper(c *enumCtx) {
 func tamperScenario(via string, L int, mode string, k int, seed uint64) *Scenario {
 	scn := &Scenario{Profile: "enum-tamper", Seed: mix(seed, uint64(L*100000+k)), Engine: "ssim", Backend: "fsenc", EncVia: via, Logger: "discard"}
 	scn.Sched = kit.Sched{Strategy: "fifo"}
+	scn.FsMTime = (k+L)%2 == 1 // every other position also with update_mtime=on (reads touch the file)
 	scn.Keys = []string{hexKey("http://a.test/r0/x#0")}
 	ops := []SOp{{Kind: "set", Key: 0, ValLen: L, Class: k % 2}, {Kind: "get", Key: 0}}
 	switch mode {
